@@ -15,15 +15,27 @@ INFO = {
  'C09': ('_compute_thresholds overwrites the theta of a cut-set node with best_known - value_bot instead of taking the minimum with the propagated one', 'cut-set node with locb <= incumbent whose cache- or rub-pruned child has a tighter theta, later better arrival in the window between the two'),
  'C10': ('dominance-pruned nodes are flagged deleted, so their threshold never reaches their parents', 'dominance rule with value AND SimpleCache; a state first compiled while its children are dominated, reached again later with a higher value'),
  'C11': ('NoDupFringe::push drops node.ub = max(new, old) for a duplicate with a larger value but a smaller ub', 'a waiting sub-problem pushed again with a strictly larger value and a strictly smaller ub'),
- 'C12': ('(see notes)', '(see notes)'),
+ 'C12': ('Pooled::_move_to_next_layer no longer sets node.depth when a pooled node is expanded', 'pooled diagram, a model with long arcs, a cut-set node below a long arc, a second-level compilation (the optimum stays right)'),
  'C13': ('DivBy clamps the inner width instead of the quotient', 'a divisor larger than the inner width'),
  'C14': ('ParallelSolver::set_primal overwrites the solution unconditionally (the bound stays monotone)', 'two set_primal calls, the later one not better'),
  'C15': ('Pooled::_move_to_next_layer records empty layers (the squash guard counts layers)', 'a variable irrelevant for every open node right below a sub-problem root followed by a layer wider than the width'),
  'C16': ('tsptw example: cheapest_edge[i] computed over edges LEAVING i instead of entering it', 'a travel-time matrix which is asymmetric between customers'),
  'C17': ('gap() casts the magnitudes to f32 before subtracting', 'huge, close, same-sign bounds (closer than one f32 ulp)'),
  'C18': ('SimpleCache::update_threshold = read-only fast path (get) followed by an unconditional insert', 'two threads updating the same key, both checking before either stores'),
- 'C19': ('(see notes)', '(see notes)'),
+ 'C19': ('NoDupFringe::push lowers the ub of a duplicate (longer path, smaller ub) without re-heapifying', 'NoDupFringe, a duplicate with a longer path and a smaller ub, a heap descendant with a bound in between, the cut-off firing between the two out-of-order pops'),
  'C20': ('Mdd::add_terminal_node drops the best_node.is_some() guard', 'infeasible diagram with the dead end exactly on the last variable'),
+}
+HISTORY = {
+ 'C02': 'first run: MISSED by every check (the hooks then reported lock acquisitions from six named places only; this change adds a second lock() inside a hooked function) -> hooks rewritten as Mutex/Condvar wrappers reporting EVERY acquisition',
+ 'C05': 'first run: MISSED (needs two pre-emptions with two workers both cut off, and an instance with several open nodes of different bounds) -> deeper bound on representative configurations, instances ranked by number of sub-problems, knapsack instances added to the E1 list',
+ 'C06': 'first run of E3 used one model variant per instance (rotation) on the seed neighbourhoods and missed the one (instance, variant) pair where a recycled node matters; now every variant on TM-N0.1 / TM-N1.1',
+ 'C08': 'first run: caught by C01 only; C06 after the all-variants change; C08 itself (clause i: path of a cut-set node not replayable) after the KPZ family, in which a merge result equals an exact kept node in 2.5 % of the merges',
+ 'C10': 'first run: MISSED (solver level had knapsacks with <= 3 items) -> KP-4, KP-5, KPB-6 with dominance + cache',
+ 'C12': 'first run: MISSED by C12 (it only saw isolated compilations and checked depths relative to the sub-problem it was given) -> C12 now also observes solver runs and checks that each sub-problem produced by the library sits at the depth it claims',
+ 'C15': 'first run: MISSED -- its non-termination had the very signature of the known finding D2 -> known findings are now restricted to listed inputs; an unlisted input with a known signature is a violation',
+ 'C16': 'first run: MISSED (only symmetric travel-time matrices were generated) -> all asymmetric matrices on 3 nodes + deviation-bounded asymmetry on 4 nodes',
+ 'C17': 'first run: MISSED by the quick grid (no close pairs at large magnitudes; the thorough grid had them) -> neighbours v+-1, v+2 of every large grid value',
+ 'C19': 'first run: MISSED by C19 (caught by C11 at the container level): needs 6-7 item knapsacks -> KPB-6 / KPB-7 complete families in the cut-off plans',
 }
 results = {}
 for f in sys.argv[1:]:
@@ -33,7 +45,7 @@ for f in sys.argv[1:]:
 rows = []
 for pid in sorted(results):
     suite, dw, dwo, checks = results[pid]
-    src = '/tmp/seed/%s-out' % pid
+    src = '/verif/seeded/%s' % pid
     dst = '/verif/seeded/%s' % pid
     suite_ok = suite.split()[0] == '176/0'
     demo_ok = dw.split('/')[1] != '0' and dwo.split('/')[1] == '0'
@@ -43,18 +55,18 @@ for pid in sorted(results):
     if not (suite_ok and demo_ok): print('NOT KEPT', pid, suite, dw, dwo); continue
     os.makedirs(dst, exist_ok=True)
     for fn in ('patch.diff', 'seed_demo.rs', 'notes.md'):
-        if os.path.exists(os.path.join(src, fn)): shutil.copy(os.path.join(src, fn), os.path.join(dst, fn))
+        if src != dst and os.path.exists(os.path.join(src, fn)): shutil.copy(os.path.join(src, fn), os.path.join(dst, fn))
     what, needs = INFO.get(pid, ('', ''))
     meta = {'property': pid, 'change': what, 'needs_to_manifest': needs,
             'confirmed': {'repository_suite_with_change (pass/fail: unit, xtask, doc)': suite.strip(), 'demonstration_with_change (pass/fail)': dw, 'demonstration_without_change (pass/fail)': dwo,
                           'how': 'tools_seed.sh: scratch worktree of /repo HEAD, patch applied with patch -p1, cargo test --workspace --offline, demonstration copied to ddo/tests/seed_demo.rs and run with and without the patch'},
             'checks_run (quick tier, VERIF_REPO=<scratch copy>)': [{'check': c, 'exit': int(e), 'first_signatures': s[:300]} for c, e, s in cs],
-            'caught_by': caught, 'not_caught_by': missed}
+            'caught_by': caught, 'not_caught_by': missed, 'history': HISTORY.get(pid, 'caught at the first run')}
     json.dump(meta, open(os.path.join(dst, 'meta.json'), 'w'), indent=1)
-    rows.append((pid, what, needs, caught, missed))
+    rows.append((pid, what, needs, caught, missed, HISTORY.get(pid, 'caught at the first run')))
 with open('/verif/seeded/README.md', 'w') as f:
     f.write('# Independently seeded property-breaking changes\n\nEach change was written by a fresh sub-agent which saw only the text of one property and its own scratch worktree (nothing from /verif).\nEvery change below compiles, passes the 176 unit tests + 20 doctests, and its demonstration fails with / passes without it (confirmed by `tools_seed.sh`).\nThe last columns say which quick-tier checks report it (run against a scratch copy through `VERIF_REPO`).\n\n')
-    f.write('| property | change | needs, in order to manifest | caught by | run but silent |\n|---|---|---|---|---|\n')
-    for pid, what, needs, caught, missed in rows:
-        f.write('| %s | %s | %s | %s | %s |\n' % (pid, what, needs, ', '.join(caught) or '**none**', ', '.join(missed) or '-'))
+    f.write('| property | change | needs, in order to manifest | caught by (final harness) | run but silent | history |\n|---|---|---|---|---|---|\n')
+    for pid, what, needs, caught, missed, hist in rows:
+        f.write('| %s | %s | %s | %s | %s | %s |\n' % (pid, what, needs, ', '.join(caught) or '**none**', ', '.join(missed) or '-', hist))
 print(len(rows), 'seeded changes stored')
